@@ -604,8 +604,14 @@ def check_c08(tier):
     if groups:
         k0 = next(iter(groups))
         V.sample({"shape": json.loads(k0), "orders": [r[0] for r in groups[k0]][:6]})
+    # cycle reports: registration-order and run-to-run stability on the dependency-graph table
+    import depgraphs
+    cov2 = depgraphs.run(V, ["cycles"], semantics=False)
+    cov = tlc_cov(meta, replayed + cov2["traces_validated_against_impl"])
+    cov["states"] += cov2["states"]
+    cov["transitions"] += cov2["transitions"]
     return V.finish(
-        coverage_extra=tlc_cov(meta, replayed),
+        coverage_extra=cov,
         rule="for every layout of spec/Layouts.tla the full observable snapshot (navigation per usage, references "
              "per definition, per-file view, outgoing-calls resolver, CLI unused; cycles and scope mismatches in the DepGraphs table) is "
              "computed on the real library under EVERY registration order of the files defining the name and the "
